@@ -308,6 +308,20 @@ class Interpreter(BaseInterpreter[TContext, TEvent]):
         for plugin in self._plugins:
             plugin.on_interpreter_stop(self)
 
+        # 🛡️ The teardown below suspends several times. A caller that is
+        #    itself cancelled in between (an actor's managing task cancelled
+        #    because its state was left, a run loop cancelled by its own
+        #    parent's `stop()`) abandoned it half way: status "stopped", run
+        #    loop and child actors still alive, and no later `stop()` could
+        #    finish the job because the status guard above returns early.
+        #    Shielded, it always runs to the end.
+        await asyncio.shield(self._teardown())
+
+        logger.info("✅ Interpreter '%s' stopped successfully.", self.id)
+
+    async def _teardown(self) -> None:
+        """Releases everything this interpreter owns; see `stop()`."""
+
         # 🛑 Stop all child actors recursively.
         #
         # 🧵 Iterate over a SNAPSHOT. Stopping a child yields to the event
@@ -337,7 +351,6 @@ class Interpreter(BaseInterpreter[TContext, TEvent]):
                 )
             self._event_loop_task = None
 
-        logger.info("✅ Interpreter '%s' stopped successfully.", self.id)
 
     @overload
     async def send(self, event_type: str, **payload: Any) -> None: ...  # noqa
